@@ -247,6 +247,27 @@ func run(c *core.Ctx) {
 		}
 	}
 	// non-integral witnesses and huge exponents
+	// float32 midpoints: the exact decimal expansion of the midpoint between two adjacent float32
+	// values and its neighbours at distance 1e-(n+6); a decoder that rounds via float64 first gets
+	// the neighbours of odd-mantissa values wrong (double rounding)
+	for _, exp := range []uint32{100, 110, 120, 126, 127, 128, 130, 140, 150} {
+		for _, mant := range []uint32{0, 1, 2, 3, 0x400000, 0x400001, 0x7ffffe, 0x7fffff} {
+			v := math.Float32frombits(exp<<23 | mant)
+			nx := math.Float32frombits(exp<<23 | mant + 1)
+			mid := new(big.Rat).Add(new(big.Rat).SetFloat64(float64(v)), new(big.Rat).SetFloat64(float64(nx)))
+			mid.Quo(mid, big.NewRat(2, 1))
+			const digits = 90
+			eps := new(big.Rat).SetFrac(big.NewInt(1), new(big.Int).Exp(big.NewInt(10), big.NewInt(digits-4), nil))
+			for _, r := range []*big.Rat{mid, new(big.Rat).Add(mid, eps), new(big.Rat).Sub(mid, eps)} {
+				lit := strings.TrimRight(strings.TrimRight(r.FloatString(digits), "0"), ".")
+				fam = append(fam, lit, "-"+lit)
+			}
+		}
+	}
+	// the float32 overflow threshold 2^128-2^103 and its integer neighbours
+	for _, lit := range []string{"340282356779733661637539395458142568447", "340282356779733661637539395458142568448", "340282356779733661637539395458142568449", "340282346638528859811704183484516925440", "340282356779733661637539395458142568447.9"} {
+		fam = append(fam, lit, "-"+lit, lit+"e0")
+	}
 	fam = append(fam, "15e-1", "-25e-1", "1250e-2", "7500E-3", "21474836479e-1", "105e-2", "1e400", "-1e400", "1e-400", "1e39", "3.4028235e38", "3.4028236e38", "1.7976931348623157e308", "1.7976931348623159e308", "4.9e-324", "2.4e-324", "1e999999999999", "0e999999999999", "0.0e-999999999999")
 	c.Par(len(fam), func(i int) {
 		for _, k := range kinds {
